@@ -498,7 +498,7 @@ pub(crate) mod verif_probe {
         // what SHOW CLIENTS / SHOW SERVERS would list for this pool now (A idle or gone)
         tokio::time::sleep(Duration::from_millis(30)).await;
         let clients_after_a: Vec<Value> = crate::stats::get_client_stats().values().filter(|c| c.pool_name() == db)
-            .map(|c| json!(format!("{}", c.state.load(Ordering::Relaxed)))).collect();
+            .map(|c| json!([format!("{}", c.state.load(Ordering::Relaxed)), c.transaction_count.load(Ordering::Relaxed), c.query_count.load(Ordering::Relaxed)])).collect();
         // where a CancelRequest with a client key would be sent right now (A idle or gone)
         let csmap_after_a: Vec<Value> = csmap.lock().iter().map(|(k, v)| json!([k.0, k.1, v.0, v.1])).collect();
         let mut b_out: Vec<u8> = vec![];
